@@ -46,6 +46,10 @@ CHECKS = {
                 technique="deterministic simulation: loss sequences scripted through the model seam, reference stop model, verbose twin, restore of the written checkpoint",
                 text="Scripted loss sequences x precision (None, 0-12) x verbosity twin x folder x repeated calibrate() calls on a real Calibrator; batches run, rows and batch index per call must equal the reference stop model (first batch after which the running minimum rounds to zero), verbose and quiet twins must be bit-identical, and with a folder the restored checkpoint must equal the returned state including the stopping batch.",
                 note="Scripted values avoid the half-unit rounding boundary; samplers are the history-free ones (losses are dictated, not computed)."),
+    "C04": dict(engine="calsim", category="exploration", design="4/C04",
+                technique="deterministic simulation: save/restore/new-run op histories on a simulated folder with stale-folder and extreme-value faults; deep bitwise comparator (RefCheckpoint) between live and restored object graphs; SQLite module API round trips",
+                text="Every checkpoint a generated op history writes (after each calibrate() with a folder, and explicit create_checkpoint calls, including zero-row states and folders that already hold an earlier or a different run) is restored and compared field by field, bitwise, with the live calibrator: configuration, counters, five arrays, generator state, and a generic recursive walk of scheduler, samplers, agent and loss. The SQLite back-end is exercised with the same live states through its module API.",
+                note="Threads/queues are transient by design; fitted third-party models are compared by type; NaN payload bits are not considered observable."),
 }
 
 NOT_APPLICABLE = {
